@@ -68,7 +68,8 @@ def opLefRawImport (args : List Sexp) : String :=
   | .atom ncs :: ms =>
     match ms.mapM macro? with
     | some macs =>
-      match importLib (ncs == "off") macs with
+      -- `<ncs>/<seed>`: the seed fills fields the importer does not read (harness side only)
+      match importLib ((ncs.splitOn "/").head? == some "off") macs with
       | .ok as => s!"ok {Sexp.list (as.map absS)}"
       | .err => "err"
     | none => "bad-op"
